@@ -355,10 +355,53 @@ def mk_complement(style, mt_name, _replay=None):
     return {"status": "holds", "paths": 1, "queries": nq, "detail": f"{len(symbols)} symbols", "solver_s": round(time.time() - t0, 2)}
 
 
+# ---------------------------------------------------------------- sequence / collection / alignment level translation
+def mk_translation_api(code_id, api, style, include_stop=False):
+    """The public get_translation entry points on 'ATGCCA' + one SYMBOLIC final codon over {T,C,A,G}, for one genetic code:
+    the final residue is the NCBI table's amino acid for THIS code; a final stop of THIS code is trimmed (sequence,
+    collection) or becomes a gap (alignment, which keeps its length); with include_stop it is kept as '*'."""
+    from cogent3.core import new_genetic_code as G
+
+    ncbi = dict((c[1], c[0]) for c in G.code_mapping)[code_id]
+    new_type = style == "new"
+
+    def check(a: int, b: int, c: int) -> bool:
+        """
+        pre: 0 <= a <= 3 and 0 <= b <= 3 and 0 <= c <= 3
+        post: _
+        """
+        import cogent3
+
+        _ = (ncbi, new_type)
+        codon = "TCAG"[a] + "TCAG"[b] + "TCAG"[c]
+        seq = "ATGCCA" + codon
+        aa = ncbi[16 * a + 4 * b + c]
+        kw = {"include_stop": True} if include_stop else {}
+        if api == "seq":
+            got = str(cogent3.make_seq(seq, name="s1", moltype="dna", new_type=new_type).get_translation(gc=code_id, **kw))
+        elif api == "coll":
+            got = str(cogent3.make_unaligned_seqs({"s1": seq}, moltype="dna", new_type=new_type).get_translation(gc=code_id, **kw).get_seq("s1"))
+        else:
+            got = str(cogent3.make_aligned_seqs({"s1": seq}, moltype="dna", new_type=new_type).get_translation(gc=code_id, **kw).get_seq("s1"))
+        if aa == "*" and not W.reach("stop"):
+            return False
+        if not W.reach("end"):
+            return False
+        if include_stop or aa != "*":
+            return got == "MP" + aa
+        return got == ("MP-" if api == "aln" else "MP")
+
+    return check
+
+
 ENCODED = [
     ("src/cogent3/core/new_genetic_code.py", ["GeneticCode.translate", "GeneticCode.__post_init__ (tables, concrete)", "_make_converter", "GeneticCode.__getitem__"]),
     ("src/cogent3/core/new_alphabet.py", ["KmerAlphabet.to_indices (ndarray)", "seq_to_kmer_indices (.py_func)", "coord_to_index (.py_func)", "convert_alphabet (table extracted)"]),
-    ("src/cogent3/core/genetic_code.py", ["GeneticCode.__getitem__ (codon table, extracted)"]),
+    ("src/cogent3/core/genetic_code.py", ["GeneticCode.__getitem__ (codon table, extracted)", "get_code", "GeneticCode.is_stop / get_alphabet (through get_translation)"]),
+    ("src/cogent3/core/sequence.py", ["NucleicAcidSequence.get_translation", "trim_stop_codon", "has_terminal_stop"]),
+    ("src/cogent3/core/new_sequence.py", ["NucleicAcidSequenceMixin.get_translation", "trim_stop_codon", "has_terminal_stop"]),
+    ("src/cogent3/core/alignment.py", ["_SequenceCollectionBase.get_translation", "trim_stop_codons (collection, Alignment, ArrayAlignment)"]),
+    ("src/cogent3/core/new_alignment.py", ["SequenceCollection.get_translation", "Alignment.get_translation", "trim_stop_codons"]),
     ("src/cogent3/core/moltype.py", ["MolType.complement", "MolType.resolve_ambiguity", "MolType.what_ambiguity", "ambiguities"]),
     ("src/cogent3/core/new_moltype.py", ["MolType.complement", "MolType.resolve_ambiguity", "MolType.degenerate_from_seq", "ambiguities"]),
 ]
@@ -366,13 +409,14 @@ BOUNDS = {
     "quick": ["all 27 NCBI codes: every codon over {T,C,A,G,-,?} (finite domain, symbolic codon)", "frames: sequences of 0..9 symbolic canonical bases (length is a shard key), start in {0,1,2}, both strands, codes 1 and 2",
               "k-mer kernel: <= 6 symbolic monomer codes over {T,C,A,G,-,?}", "index width: one representative sequence length per dtype class of the index array (1, 256, 65536 codons)", "complement / ambiguity tables: every IUPAC symbol of DNA and RNA, old and new moltypes"],
 }
-BOUNDS["thorough"] = ["as quick, frames for codes 1, 2, 4, 11"]
+BOUNDS["quick"].append("get_translation of Sequence / SequenceCollection / Alignment (old and new style): 'ATGCCA' + one symbolic final codon over {T,C,A,G}, codes 1, 2, 6, 14 (all 27 in thorough); include_stop for code 2")
+BOUNDS["thorough"] = ["as quick, frames for codes 1, 2, 4, 11; get_translation entry points for all 27 codes"]
 ASSUMPTIONS = [
     "the byte-level translate call (bytes.translate, C) is replaced by the 66-entry table extracted this run from the real converter; the k-mer kernel is run through its .py_func (numba compilation trusted); numpy.zeros in new_alphabet rebound to an object-array allocator",
     "bases are encoded as their index in the alphabet order T,C,A,G(,-,?) — the str -> index step (CharAlphabet.to_indices, C level) is outside",
     "minus-strand frames: two readings are checked, see known_findings.txt",
 ]
-OUTSIDE = ["sequence / collection / alignment-level get_translation and trim_stop_codon (regex and moltype string machinery on symbolic strings)", "str <-> index conversion at C level", "protein moltype ambiguity tables"]
+OUTSIDE = ["get_translation / trim_stop_codon on more than one symbolic codon, gapped or ambiguous codons, incomplete_ok (the moltype string machinery on symbolic strings grows ~x60 per symbolic codon)", "the translate_seqs app wrapper", "str <-> index conversion at C level", "protein moltype ambiguity tables"]
 TRUSTED = ["the NCBI order TCAG index arithmetic in props/c12.py"]
 
 KNOWN_KEY = "new_genetic_code.translate:minus-frame-numbered-from-forward-start"
@@ -397,6 +441,14 @@ def obligations(tier):
                 obs.append(Ob(f"frames/code{cid}/n{n}/start{start}/rc_same_frame_set", __name__, "mk_frames", {"code_id": cid, "n": n, "start": start, "rc": True, "mode": "rc_same_frame_set"}, timeout=900, twins=("end",), group="frames"))
                 if cid == 1 and n in (6, 7, 8) and start == 1:
                     obs.append(Ob(f"frames/code{cid}/n{n}/start{start}/rc_documented", __name__, "mk_frames", {"code_id": cid, "n": n, "start": start, "rc": True, "mode": "rc_documented"}, timeout=900, twins=("end",), group="frames", expect_known=KNOWN_KEY))
+    # codes whose stop sets differ: 1 standard; 2 TGA->W, AGA/AGG stop; 6 TAA/TAG->Q; 14 TAA->Y
+    for cid in ([c[1] for c in G.code_mapping] if T else (1, 2, 6, 14)):
+        for style in ("old", "new"):
+            for api in ("seq", "coll", "aln"):
+                obs.append(Ob(f"translation_api/{style}/{api}/code{cid}", __name__, "mk_translation_api", {"code_id": cid, "api": api, "style": style}, timeout=1800, twins=("end", "stop"), group="api"))
+    for style in ("old", "new"):
+        for api in ("seq", "coll", "aln"):
+            obs.append(Ob(f"translation_api/{style}/{api}/code2/include_stop", __name__, "mk_translation_api", {"code_id": 2, "api": api, "style": style, "include_stop": True}, timeout=1800, twins=("end", "stop"), group="api"))
     obs.append(Ob("translate_index_width", __name__, "mk_index_width", {}, kind="direct", timeout=600, group="frames"))
     for n in (3, 6):
         obs.append(Ob(f"kmer_kernel/n{n}", __name__, "mk_kmer_kernel", {"n": n}, timeout=900, group="kernel"))
